@@ -15,13 +15,15 @@ def gen(rng: random.Random, tier: str):
         for j in range(rng.randint(0, 2)):
             lits.append({"name": f"lit{j}", "value": rng.randint(-5, 5)}); nodes.append(f"lit{j}")
         for j in range(rng.randint(1, 5)):
-            kind = rng.choice(list(FUNCS) + ["bias", "pop", "topn", "cls-nocfg", "inst-nocfg", "cls-bias"])
+            kind = rng.choice(list(FUNCS) + ["bias", "pop", "topn", "cls-nocfg", "inst-nocfg", "cls-bias", "opt", "cls-opt"])
             if kind in FUNCS:
                 params = FUNCS[kind]
                 edges = [[p, rng.choice(nodes)] for p in params if rng.random() < 0.8]
                 comps.append({"name": f"c{j}", "kind": kind, "edges": edges, "setting": None})
             elif kind in ("cls-nocfg", "inst-nocfg"):
                 comps.append({"name": f"c{j}", "kind": kind, "edges": [["x", rng.choice(nodes)]] if rng.random() < 0.8 else [], "setting": None})
+            elif kind in ("opt", "cls-opt"):
+                comps.append({"name": f"c{j}", "kind": kind, "edges": [["x", rng.choice(nodes)]] if rng.random() < 0.8 else [], "setting": rng.choice([1, 2, 3])})
             else:
                 comps.append({"name": f"c{j}", "kind": kind, "edges": [], "setting": rng.choice([1, 2, 3])})
             nodes.append(f"c{j}")
@@ -50,6 +52,9 @@ def build(case: dict, decl_seed: int | None = None, tweak: str | None = None):
         if tweak == "setting" and s is not None and not any(cc["setting"] is not None for cc in case["comps"][:ci]): s = s + 10
         if c["kind"] == "cls-nocfg": h[c["name"]] = pb.add_component(c["name"], lc.NoCfgComp); continue          # a component class, to be instantiated by the pipeline
         if c["kind"] == "cls-bias": h[c["name"]] = pb.add_component(c["name"], BiasScorer, {"damping": s}); continue
+        # optional settings: an odd setting makes `level` explicitly None (its default is 5)
+        if c["kind"] == "cls-opt": h[c["name"]] = pb.add_component(c["name"], lc.OptComp, {"level": None if s % 2 else s, "label": None if s < 3 else "t"}); continue
+        if c["kind"] == "opt": h[c["name"]] = pb.add_component(c["name"], lc.OptComp(level=None if s % 2 else s, label=None if s < 3 else "t")); continue
         obj = getattr(lc, c["kind"]) if c["kind"] in FUNCS else {"bias": lambda: BiasScorer(damping=s), "pop": lambda: PopScorer(score=["count", "rank", "quantile"][s % 3]),
                                                                 "topn": lambda: TopNRanker(n=s), "inst-nocfg": lambda: lc.NoCfgComp()}[c["kind"]]()
         h[c["name"]] = pb.add_component(c["name"], obj)
@@ -98,6 +103,10 @@ def run(case: dict, lean: Lean) -> Outcome:
                 b2 = PipelineBuilder.from_config(doc)
                 if b2.config_hash() != hash0: failed.append(f"{how}: hash changes on reload")
                 if (b2.name, b2.version) != (pb.name, pb.version): failed.append(f"{how}: name/version lost")
+                p0 = pb.build(); p2 = b2.build()
+                for c in case["comps"]:
+                    c0 = getattr(p0.node(c["name"]), "component", None); c2 = getattr(p2.node(c["name"]), "component", None)
+                    if getattr(c0, "config", None) != getattr(c2, "config", None): failed.append(f"{how}: settings of {c['name']} change on reload: {getattr(c0, 'config', None)!r} -> {getattr(c2, 'config', None)!r}")
                 if any(issubclass(x.category, PipelineWarning) for x in w): failed.append(f"{how}: hash-mismatch warning on an untouched document")
             except Exception as e: failed.append(f"{how}: reload raised {type(e).__name__}")
     try:
@@ -153,6 +162,7 @@ def run(case: dict, lean: Lean) -> Outcome:
     if case["defaults"]: classes.append("default connections")
     if any(i["types"] and len(i["types"]) > 1 for i in case["inputs"]): classes.append("multi-type input")
     if any(c["setting"] is not None for c in case["comps"]): classes.append("configurable component")
+    if any(c["kind"] in ("opt", "cls-opt") and c["setting"] % 2 for c in case["comps"]): classes.append("setting explicitly None")
     if case.get("subprocess"): classes.append("other processes")
     return Outcome(corr, not failed, tuple(classes), {"failed": failed, "hash": hash0}, key)
 
